@@ -107,15 +107,8 @@ static void describe_two(uint64_t idx, FILE *f) {
     MTU = mtu2[1 - order]; fprintf(f, ",\"f2\":"); shape_json(f, &FULL[f2]); MTU = mtu2[0];
 }
 
-/* the wireless configurations also stand for a platform whose string attributes have their maximal legal length:
- * a 64-byte hardware ID without terminator (what os/darwin/lltd_port.c produces from a UUID) and a machine name
- * longer than a Hello may carry */
-static void rich_platform(void) {
-    if (!A.wifi) return;
-    for (size_t i = 0; i < 64; i++) W.host.hwid[i] = (uint8_t)('A' + (i / 2) % 26) * (uint8_t)(1 - (i & 1)); W.host.hwid_len = 64;
-    static const char longname[] = "a-rather-long-machine-name-of-fifty-one-characters.";
-    memcpy(W.host.hostname, longname, sizeof longname - 1); W.host.hostname_len = sizeof longname - 1;
-}
+/* the wireless configurations also stand for a platform whose string attributes have their maximal legal length */
+static void rich_platform(void) { if (A.wifi) vf_rich_platform(); }
 /* flood: idx = mtu_index * 6 + variant.  Full see-lists at every alignment of the frame end: a Discover, n distinct
  * observations (n around the QueryResp capacity), two Queries, a second round. */
 static const int FLOOD_MTUS[] = {576, 577, 578, 579, 580, 581, 582, 583, 584, 585, 586, 587, 588, 589, 590, 591, 592, 593, 594, 595, 1492, 1493, 1500, 9212, 9216};
